@@ -3,6 +3,7 @@ package main
 import (
 	"fmt"
 	"go/token"
+	"regexp"
 	"sort"
 	"strings"
 
@@ -30,6 +31,10 @@ func lenOfField(name string) func(v ssa.Value, in *ssa.Function) bool {
 		return ok && fieldName(fa) == name
 	}
 }
+
+// wholeRangeIndex: the description of an index that starts at 0 and is incremented by one (range loop or
+// counting loop).
+var wholeRangeIndex = regexp.MustCompile(`^\(?phi\((\(↺\+1\)\|-1|-1\|\(↺\+1\))\)\+1\)?$|^phi\((0\|\(↺\+1\)|\(↺\+1\)\|0)\)$`)
 
 func checkC08(c *Ctx) {
 	p := c.Prog("amd64")
@@ -128,6 +133,11 @@ func checkC08(c *Ctx) {
 				}
 				n++
 				idx := descVal(ia.Index)
+				// every octet: the index runs over the whole base nonce from 0 (a range loop, or a counter from 0)
+				if !wholeRangeIndex.MatchString(idx) {
+					okAll = false
+					why = append(why, fmt.Sprintf("%s: the index %s does not start at 0: the leading octets of the nonce are not computed", p.pos(st.Pos()), idx))
+				}
 				v := descVal(st.Val)
 				a, b2 := "param#0.baseNonce["+idx+"]", "param#0.sequenceNumber["+idx+"]"
 				if v != "("+a+"^"+b2+")" && v != "("+b2+"^"+a+")" {
